@@ -1,0 +1,14 @@
+//go:build verif
+
+// Contracts for the verifier in /verif (comment-only; compiled only with -tags verif, adds no code).
+package ast
+
+// ---- C14/C19: decoding a body. Native syntax: one entry per attribute written and one per block written, in
+// ---- source order, with the body's range. JSON: what the schema-guided partial decoding yields, whether or
+// ---- not that decoding also reported problems (an incomplete body keeps what it has).
+//@ contract ast.DecodeBody (body, bodySchema) (content)
+//@   ghost partial after invoke:PartialContent#1 : bContent
+//@   ghost decodedJSON after invoke:PartialContent#1 : true
+//@   loop 2 iter [C14] len(content.Blocks) == old(len(content.Blocks)) + 1 && content.Blocks[len(content.Blocks)-1].Range == block.Range()
+//@   ensures [C14] implies(typeis(body, "*hclsyntax.Body"), content.RangePtr != nil)
+//@   ensures [C14] implies(!typeis(body, "*hclsyntax.Body") && bodySchema != nil, decodedJSON && content.Attributes == partial.Attributes)
